@@ -9,6 +9,13 @@ C23  Batch processing does not depend on the letter case of names.
      name at creation makes those comparisons fail.
  R3  config matching folds both sides (``match_item_keys``, ``is_disabled``...),
      the cache is a case-insensitive mapping, seeds are folded.
+ R4  names derived from IR nodes inside ``ItemFactory`` (locals called ``*_name`` /
+     ``*_names``) are folded as a whole before they are compared with or looked up
+     among item names (which are lower case).
+ R5  names built from name-valued transformation options (``suffix``,
+     ``module_suffix``, mode suffixes) in loki/transformations/dependency.py are
+     folded before they are used as keys, or the container they are looked up in
+     is a ``CaseInsensitiveDict`` / the item cache / a scope.
 Not decided: that generated code is equal up to case.
 """
 import ast
@@ -32,6 +39,7 @@ META = dict(
 )
 
 IT = 'loki/batch/item.py'
+CI_SCOPES = {'scope_ir', 'scope', 'current_module', 'self.item_cache', 'scope_ir.parent'}   # case-insensitive membership
 FA = 'loki/batch/item_factory.py'
 ITEM_CLASSES = {'Item', 'FileItem', 'ModuleItem', 'ProcedureItem', 'TypeDefItem', 'InterfaceItem', 'ProcedureBindingItem',
                 'ExternalItem', 'item_cls'}
@@ -201,6 +209,131 @@ def run(ctx):
     (ctx.judge('R3', 'seeds folded') if ok else
      ctx.violation('R3', 'Scheduler.seeds', si.where, 'seed names are stored without lower-casing'))
 
+    # ---- R4
+    ctx.rule('R4', 'ItemFactory: every local *_name(s) assigned from an expression over IR-node attributes is folded as a whole')
+    ctx.rule('R5', 'dependency.py: keys built from suffix options are folded or looked up in case-insensitive containers')
+    n4 = 0
+    for mem in fac.members.values():
+        if mem.kind != 'func':
+            continue
+        fn = mem.node
+        for n in ast.walk(fn):
+            if isinstance(n, ast.Assign) and len(n.targets) == 1 and isinstance(n.targets[0], ast.Name) \
+                    and n.targets[0].id.endswith(('_name', '_names')):
+                val = n.value
+                srcs = {ast.unparse(a.value) for a in ast.walk(val) if isinstance(a, ast.Attribute) and isinstance(a.value, ast.Name)}
+                if not srcs & {'node', 'smbl', 'proc_symbol', 'scope_ir', 'current_module', 'symbol', 'routine', 'type_', 'r', 'call'}:
+                    continue
+                n4 += 1
+                r = classify(val, fn, at=n.lineno)
+                inst = f'ItemFactory.{mem.name}:{n.targets[0].id}@{sum(1 for x in ctx.instances if x[1].startswith(f"ItemFactory.{mem.name}:{n.targets[0].id}"))}'
+                if r == 'folded':
+                    ctx.judge('R4', inst, facts={'expr': ast.unparse(val)[:100]})
+                    continue
+                # unfolded: follow the value (iteration / plain re-binding) into key positions
+                derived = {n.targets[0].id}
+                changed = True
+                while changed:
+                    changed = False
+                    for x in ast.walk(fn):
+                        pairs = []
+                        if isinstance(x, (ast.For, ast.comprehension)):
+                            pairs.append((x.target, x.iter))
+                        elif isinstance(x, ast.Assign) and x is not n:
+                            pairs += [(t, x.value) for t in x.targets]
+                        elif isinstance(x, ast.NamedExpr):
+                            pairs.append((x.target, x.value))
+                        for tgt, src_ in pairs:
+                            if _has_lower(src_):
+                                continue
+                            if {y.id for y in ast.walk(src_) if isinstance(y, ast.Name)} & derived and \
+                                    not isinstance(src_, ast.Call) or (isinstance(src_, ast.Call) and X.call_name_of(src_) in ('tuple', 'as_tuple', 'list')
+                                                                       and {y.id for y in ast.walk(src_) if isinstance(y, ast.Name)} & derived):
+                                for t in ast.walk(tgt):
+                                    if isinstance(t, ast.Name) and t.id not in derived:
+                                        derived.add(t.id)
+                                        changed = True
+                uses = []
+                for x in ast.walk(fn):
+                    if getattr(x, 'lineno', 0) <= n.lineno:
+                        continue
+                    key = None
+                    if isinstance(x, ast.Call) and isinstance(x.func, ast.Attribute) and x.func.attr == 'get' and x.args:
+                        key = x.args[0]
+                    elif isinstance(x, ast.Subscript) and not isinstance(x.ctx, ast.Store):
+                        key = x.slice
+                    elif isinstance(x, ast.Compare) and isinstance(x.ops[0], (ast.In, ast.NotIn, ast.Eq, ast.NotEq)):
+                        # membership in an IR scope compares through expression symbols (case-insensitive string equality)
+                        if isinstance(x.ops[0], (ast.In, ast.NotIn)) and ast.unparse(x.comparators[0]).split('.')[0] in {c.split('.')[0] for c in CI_SCOPES} \
+                                and not ast.unparse(x.comparators[0]).startswith('self.') or ast.unparse(x.comparators[0]) in CI_SCOPES:
+                            continue
+                        for side in [x.left] + x.comparators:
+                            if isinstance(side, ast.Name) and side.id in derived:
+                                uses.append(ast.unparse(x))
+                    if key is not None and isinstance(key, ast.Name) and key.id in derived:
+                        uses.append(ast.unparse(x))
+                if uses:
+                    ctx.violation('R4', f'ItemFactory.{mem.name}:{n.targets[0].id}', f'{fac.module.relpath}:{n.lineno}',
+                                  f'`{n.targets[0].id} = {ast.unparse(val)[:90]}` is not lower-cased as a whole ({r}) and reaches the '
+                                  f'look-up `{uses[0][:70]}`: the spelling used at the use site decides whether the (lower-case) item name '
+                                  f'is found', instance=inst, facts={'derived_names': sorted(derived), 'uses': uses[:3]})
+                else:
+                    ctx.judge('R4', inst, nontrivial=False, facts={'expr': ast.unparse(val)[:100], 'note': 'unfolded but only folded uses'})
+    ctx.floor('R4', 'IR-derived name locals in ItemFactory', n4, 10)
+    # ---- R5
+    dep = m.module_by_path('loki/transformations/dependency.py')
+    SUFFIX_ATTRS = ('self.suffix', 'self.module_suffix', 'mode_rename', 'self.rename_suffix')
+    n5 = 0
+    for fn in [n for n in ast.walk(dep.tree) if isinstance(n, (ast.FunctionDef,))]:
+        suffixed = {}
+        for n in ast.walk(fn):
+            if isinstance(n, ast.Assign) and len(n.targets) == 1 and isinstance(n.targets[0], ast.Name) \
+                    and any(sa in ast.unparse(n.value) for sa in SUFFIX_ATTRS) and isinstance(n.value, (ast.JoinedStr, ast.Call, ast.BinOp)):
+                suffixed[n.targets[0].id] = n
+        if not suffixed:
+            continue
+        ci_containers = {ast.unparse(n.targets[0]) for n in ast.walk(fn) if isinstance(n, ast.Assign)
+                         and isinstance(n.value, ast.Call) and X.call_name_of(n.value) == 'CaseInsensitiveDict'}
+        for n in ast.walk(fn):
+            key = cont = None
+            if isinstance(n, ast.Compare) and isinstance(n.ops[0], (ast.In, ast.NotIn)) and isinstance(n.left, ast.Name):
+                key, cont = n.left.id, ast.unparse(n.comparators[0])
+            elif isinstance(n, ast.Subscript) and isinstance(n.slice, ast.Name):
+                key, cont = n.slice.id, ast.unparse(n.value)
+            elif isinstance(n, ast.Call) and isinstance(n.func, ast.Attribute) and n.func.attr == 'get' and n.args and isinstance(n.args[0], ast.Name):
+                key, cont = n.args[0].id, ast.unparse(n.func.value)
+            if key not in suffixed:
+                continue
+            n5 += 1
+            folded = classify(suffixed[key].value, fn, at=suffixed[key].lineno) == 'folded'
+            params = {a.arg for a in fn.args.args}
+            ci = cont in ci_containers or 'item_cache' in cont or cont in ('scope',) or cont.endswith('.ir')
+            # a dict handed in as a parameter: judged at the call site that builds it
+            by_param = cont in params
+            inst = f'{fn.name}:{key} in {cont}'
+            if folded or ci:
+                ctx.judge('R5', inst, facts={'folded': folded, 'case_insensitive_container': ci})
+            elif by_param:
+                # find the constructions of that argument in the module
+                ok = False
+                for c in ast.walk(dep.tree):
+                    if isinstance(c, ast.Call) and X.call_name_of(c) == fn.name:
+                        for a in list(c.args) + [k.value for k in c.keywords]:
+                            if isinstance(a, ast.Name):
+                                for asg in ast.walk(dep.tree):
+                                    if isinstance(asg, ast.Assign) and ast.unparse(asg.targets[0]) == a.id and isinstance(asg.value, ast.Call) \
+                                            and X.call_name_of(asg.value) == 'CaseInsensitiveDict':
+                                        ok = True
+                (ctx.judge('R5', inst, facts={'container_built_as': 'CaseInsensitiveDict at call site'}) if ok else
+                 ctx.violation('R5', f'{fn.name}:{key}', f'{dep.relpath}:{n.lineno}',
+                               f'`{key}` (built from a suffix option, not lower-cased) is looked up in `{cont}`, which no caller builds as a '
+                               f'CaseInsensitiveDict: an upper-case suffix makes the look-up miss'))
+            else:
+                ctx.violation('R5', f'{fn.name}:{key}', f'{dep.relpath}:{n.lineno}',
+                              f'`{key} = {ast.unparse(suffixed[key].value)[:70]}` contains a name-valued option and is neither lower-cased nor '
+                              f'looked up in a case-insensitive container (`{cont}`): the result depends on the letter case of the option')
+    ctx.floor('R5', 'suffix-derived keys used in look-ups', n5, 3)
+
 
 MUTANTS = [
     Mutant('module-item-name-raw', IT, "item_factory.get_or_create_item(ModuleItem, node.name.lower(), self.name, config)",
@@ -213,5 +346,13 @@ MUTANTS = [
     Mutant('seeds-raw', 'loki/batch/scheduler.py', "            self.seeds = tuple(seed.lower() for seed in as_tuple(seed_routines))",
            "            self.seeds = tuple(seed for seed in as_tuple(seed_routines))", expect=('R3', 'Scheduler.seeds')),
     Mutant('cache-plain-dict', FA, "        self.item_cache = CaseInsensitiveDict()", "        self.item_cache = {}", expect=('R3', 'item_cache')),
+    Mutant('use-name-raw', FA, "symbol_names = tuple(str(smbl.type.use_name or smbl).lower() for smbl in node.symbols)",
+           "symbol_names = tuple(smbl.type.use_name or smbl.name.lower() for smbl in node.symbols)", expect=('R4', 'symbol_names')),
+    Mutant('suffix-call-name-raw', 'loki/transformations/dependency.py', "            new_call_name = f'{call_name}{self.suffix}'.lower()",
+           "            new_call_name = f'{call_name}{self.suffix}'", expect=None),     # still a CaseInsensitiveDict at the call site
+    Mutant('suffix-call-name-raw+plain-dict', 'loki/transformations/dependency.py', "            new_call_name = f'{call_name}{self.suffix}'.lower()",
+           "            new_call_name = f'{call_name}{self.suffix}'", expect=('R5', 'new_call_name'),
+           also=[('loki/transformations/dependency.py', "new_dependencies_dic = CaseInsensitiveDict((new_item.local_name, new_item)\n                                for new_item in new_dependencies)",
+                  "new_dependencies_dic = {dep.local_name: dep for dep in new_dependencies}")]),
     Mutant('repair-hash', IT, "        return hash(self.name)", "        return hash(self.name.lower())", expect=None),
 ]
